@@ -31,6 +31,7 @@ const (
 	QSet
 	QFinish
 	QTClose
+	QCancel // the caller's context of the blocked call C ends
 )
 
 const (
@@ -57,6 +58,8 @@ func (a Action) Coq() string {
 		return hx.App("QSet", hx.Nat(a.N), rname[a.R])
 	case QFinish:
 		return hx.App("QFinish", hx.Nat(a.C), hx.Bool(a.Ok))
+	case QCancel:
+		return hx.App("QCancel", hx.Nat(a.C))
 	}
 	return "QTClose"
 }
@@ -73,9 +76,10 @@ type Att struct {
 }
 type Ret struct{ C, Code int }
 type Obs struct {
-	Atts []Att
-	Rets []Ret
-	Pool int
+	Atts   []Att
+	Rets   []Ret
+	Pool   int
+	Leaked int // reservations the dummies handed out that were neither exchanged on nor withdrawn
 }
 
 func (o Obs) Coq() string {
@@ -91,7 +95,7 @@ func (o Obs) Coq() string {
 	for i, r := range o.Rets {
 		rs[i] = hx.Tuple(hx.Nat(r.C), hx.Ni(r.Code))
 	}
-	return hx.App("mkQO", hx.List(as), hx.List(rs), hx.Ni(o.Pool))
+	return hx.App("mkQO", hx.List(as), hx.List(rs), hx.Ni(o.Pool), hx.Ni(o.Leaked))
 }
 
 // ---------- dummy connections ----------
@@ -107,6 +111,8 @@ type world struct {
 	landed  chan int      // call whose exchange is now blocked on a connection
 	fin     map[int]chan bool
 	created map[int64]map[int]bool // connections created during the current pass of that goroutine
+	issued  int                    // reservations handed out by dummies
+	used    int                    // ... on which ExchangeReserved or WithdrawReserved was called
 }
 
 type dconn struct {
@@ -135,6 +141,9 @@ func (d *dconn) ReserveNewQuery() (transport.ReservedExchanger, bool) {
 	w.mu.Unlock()
 	switch m {
 	case RAdmit:
+		w.mu.Lock()
+		w.issued++
+		w.mu.Unlock()
 		return &dex{d}, false
 	case RFull:
 		return nil, false
@@ -158,6 +167,7 @@ func (x *dex) ExchangeReserved(ctx context.Context, q []byte) (*[]byte, error) {
 		a.Landed = x.d.id + 1
 	}
 	w.cur[g] = nil
+	w.used++
 	ch := make(chan bool, 1)
 	w.fin[c] = ch
 	w.mu.Unlock()
@@ -177,7 +187,11 @@ func (x *dex) ExchangeReserved(ctx context.Context, q []byte) (*[]byte, error) {
 		return nil, ctx.Err()
 	}
 }
-func (x *dex) WithdrawReserved() {}
+func (x *dex) WithdrawReserved() {
+	x.d.w.mu.Lock()
+	x.d.w.used++
+	x.d.w.mu.Unlock()
+}
 
 // ---------- executor ----------
 
@@ -195,7 +209,7 @@ func (v *View) Applicable(a Action) bool {
 		return !v.Started[a.C]
 	case QSet:
 		return a.N < v.NConns
-	case QFinish:
+	case QFinish, QCancel:
 		return v.Blocked[a.C]
 	case QTClose:
 		return !v.Closed
@@ -204,6 +218,9 @@ func (v *View) Applicable(a Action) bool {
 }
 
 var mu sync.Mutex
+
+// Wedged: the transport's mutex was held for more than 3 s during the last Run (set under mu).
+var Wedged bool
 
 const wait = 3 * time.Second
 
@@ -217,6 +234,8 @@ func code(err error) int {
 		return 2
 	case errors.Is(err, errFin):
 		return 3
+	case errors.Is(err, context.Canceled):
+		return 4
 	}
 	return 9
 }
@@ -224,6 +243,7 @@ func code(err error) int {
 func Run(next func(v *View) *Action) ([]Action, []Obs) {
 	mu.Lock()
 	defer mu.Unlock()
+	Wedged = false
 	w := &world{mode: map[int]int{}, cur: map[int64]*Att{}, landed: make(chan int, 64), fin: map[int]chan bool{}, created: map[int64]map[int]bool{}}
 	calls := map[int64]int{} // goroutine -> call
 	var cmu sync.Mutex
@@ -268,6 +288,7 @@ func Run(next func(v *View) *Action) ([]Action, []Obs) {
 	defer verifhook.Set(nil)
 
 	started, blocked := map[int]bool{}, map[int]bool{}
+	cancels := map[int]context.CancelFunc{}
 	closed := false
 	var script []Action
 	var obs []Obs
@@ -303,7 +324,18 @@ func Run(next func(v *View) *Action) ([]Action, []Obs) {
 				w.mu.Unlock()
 				sort.SliceStable(o.Atts, func(i, j int) bool { return o.Atts[i].Call < o.Atts[j].Call })
 				sort.Slice(o.Rets, func(i, j int) bool { return o.Rets[i].C < o.Rets[j].C })
-				o.Pool = t.VerifConnCount()
+				pc := make(chan int, 1)
+				go func() { pc <- t.VerifConnCount() }()
+				select {
+				case o.Pool = <-pc:
+				case <-time.After(wait):
+					// the transport's mutex is not coming back (a caller is stuck inside getReservedExchanger)
+					o.Pool = 99999
+					Wedged = true
+				}
+				w.mu.Lock()
+				o.Leaked = w.issued - w.used
+				w.mu.Unlock()
 				return
 			}
 		}
@@ -331,13 +363,15 @@ func Run(next func(v *View) *Action) ([]Action, []Obs) {
 			qb, _ := q.Pack()
 			ready := make(chan struct{})
 			c := a.C
+			ctx, cancel := context.WithCancel(context.Background())
+			cancels[c] = cancel
 			go func() {
 				g := gid()
 				cmu.Lock()
 				calls[g] = c
 				cmu.Unlock()
 				close(ready)
-				r, err := t.ExchangeContext(context.Background(), qb)
+				r, err := t.ExchangeContext(ctx, qb)
 				if r != nil {
 					pool.ReleaseBuf(r)
 				}
@@ -362,15 +396,32 @@ func Run(next func(v *View) *Action) ([]Action, []Obs) {
 			delete(blocked, a.C)
 			ch <- a.Ok
 			expect[a.C] = true
+		case QCancel:
+			delete(blocked, a.C)
+			cancels[a.C]()
+			expect[a.C] = true
 		case QTClose:
 			t.Close()
 			closed = true
 		}
 		settle(&o, expect)
 		obs = append(obs, o)
+		if Wedged {
+			break
+		}
+	}
+	if Wedged {
+		// nothing can be cleaned up through the transport any more; let the blocked exchanges go
+		for _, cf := range cancels {
+			cf()
+		}
+		return script, obs
 	}
 	// clean up: let every blocked exchange end
 	t.Close()
+	for _, cf := range cancels {
+		cf()
+	}
 	w.mu.Lock()
 	for _, ch := range w.fin {
 		select {
@@ -419,6 +470,7 @@ func Catalogue() map[string][]Action {
 	set := func(n, r int) Action { return Action{K: QSet, N: n, R: r} }
 	fin := func(c int, ok bool) Action { return Action{K: QFinish, C: c, Ok: ok} }
 	tc := Action{K: QTClose}
+	can := func(c int) Action { return Action{K: QCancel, C: c} }
 	many := func(n int) []Action {
 		// n connections, all full: the scan gives up after more than 16 refusals and dials
 		var as []Action
@@ -436,6 +488,8 @@ func Catalogue() map[string][]Action {
 		"new-fails-reported":          {st(0), fin(0, false), st(1), fin(1, true)},
 		"retry-lands-on-new":          {st(0), fin(0, true), st(1), set(0, RClosed), fin(1, false), fin(1, false)},
 		"close-then-calls-fail":       {st(0), st(1), tc, st(2), fin(0, false), fin(1, true), st(3)},
+		"cancel-on-reused-no-leak":    {st(0), fin(0, true), st(1), can(1), st(2), fin(2, true), st(3), can(3), st(4)},
+		"cancel-on-new-no-leak":       {st(0), can(0), st(1), can(1), st(2), fin(2, true)},
 		"scan-bound-17-full":          many(18),
 		"scan-bound-20-full":          many(20),
 		"mixed-full-closed-admitting": {st(0), st(1), st(2), set(0, RFull), set(1, RClosed), st(3), set(2, RFull), st(4), set(0, RAdmit), st(5), fin(3, false)},
@@ -455,8 +509,10 @@ func RandomNext(r *hx.RNG, maxSteps int) func(v *View) *Action {
 				a = Action{K: QStart, C: nextCall}
 			case k < 68:
 				a = Action{K: QSet, N: r.Intn(v.NConns + 1), R: hx.Pick(r, []int{RAdmit, RAdmit, RFull, RFull, RClosed})}
-			case k < 97:
+			case k < 88:
 				a = Action{K: QFinish, C: r.Intn(nextCall + 1), Ok: r.Chance(1, 2)}
+			case k < 97:
+				a = Action{K: QCancel, C: r.Intn(nextCall + 1)}
 			default:
 				a = Action{K: QTClose}
 			}
@@ -476,6 +532,11 @@ func Drive(w *hx.Writer, o *hx.Opts, wrap func(string) string) {
 		acts := make([]string, len(script))
 		for i, a := range script {
 			acts[i] = a.String()
+		}
+		if Wedged {
+			w.Violation(id, "PipelineTransport stopped responding: its mutex is held for ever by a call stuck inside getReservedExchanger (no exchange on it can start or finish)",
+				map[string]any{"actions": acts})
+			return
 		}
 		w.Emit("pool-script", hx.Case{ID: id, Coq: wrap(CaseCoq(script, obs)), Desc: map[string]any{"actions": acts}})
 		w.Tally("pool-actions", len(script))
